@@ -133,3 +133,59 @@ func consoleTableChecks(c *caseCtx) {
 	}
 	fmt.Printf("COUNT console %d\n", n)
 }
+
+// engineResetTableChecks (C11): a new game on the same engine starts from an empty table - what the
+// searches of the previous game stored (values that depended on its clock, its history or its evaluation
+// noise) must not surface in the next one: the first search of the new game equals the one of an engine
+// without table.
+func engineResetTableChecks(c *caseCtx) {
+	ctx := context.Background()
+	type sc struct {
+		first      string
+		firstNoise uint
+		second     string
+		depth      uint
+	}
+	scs := []sc{
+		{"k7/7R/6R1/8/8/8/8/7K b - - 98 80", 0, "k7/7R/6R1/8/8/8/8/7K b - - 0 1", 3},
+		{"r3k2r/p1ppqpb1/bn2pnp1/3PN3/1p2P3/2N2Q1p/PPPBBPPP/R3K2R w KQkq - 0 1", 8000, "r3k2r/p1ppqpb1/bn2pnp1/3PN3/1p2P3/2N2Q1p/PPPBBPPP/R3K2R w KQkq - 0 1", 3},
+		{"7k/8/5K2/6Q1/8/8/8/8 w - - 97 60", 0, "7k/8/5K2/6Q1/8/8/8/8 w - - 0 1", 3},
+		{"6k1/5ppp/8/8/8/8/5PPP/R5K1 w - - 99 70", 0, "6k1/5ppp/8/8/8/8/5PPP/R5K1 w - - 0 1", 2},
+	}
+	n := 0
+	run := func(e *engine.Engine, f string, d uint) (string, bool) {
+		a, _, ok := analyse(ctx, e, f, nil, d)
+		if !ok || len(a.lines) == 0 {
+			return "", false
+		}
+		// depth:nodes:score:pv - the score is the third field
+		parts := strings.Split(a.lines[len(a.lines)-1], ":")
+		if len(parts) < 3 {
+			return "", false
+		}
+		return parts[2], true
+	}
+	for _, s := range scs {
+		for _, minDepth := range []bool{false, true} {
+			mk := func(hash uint) *engine.Engine {
+				root := search.AlphaBeta{Eval: search.Leaf{Eval: eval.Material{}}}
+				opts := []engine.Option{engine.WithOptions(engine.Options{Hash: hash})}
+				if minDepth {
+					opts = append(opts, engine.WithTable(search.NewMinDepthTranspositionTable(1)))
+				}
+				return engine.New(ctx, "morlock", "t", root, opts...)
+			}
+			with := mk(1)
+			with.SetNoise(s.firstNoise)
+			_, _ = run(with, s.first, s.depth)
+			with.SetNoise(0)
+			got, ok1 := run(with, s.second, s.depth)
+			want, ok2 := run(mk(0), s.second, s.depth)
+			n++
+			if ok1 && ok2 && got != want {
+				fmt.Printf("IMPLVIOL enginetable first=%q noise=%d second=%q depth=%d :: the first search of the new game returns %s with a hash table, %s without prop=C11 key=table-across-games\n", s.first, s.firstNoise, s.second, s.depth, got, want)
+			}
+		}
+	}
+	fmt.Printf("COUNT enginetable %d\n", n)
+}
